@@ -1,5 +1,6 @@
 import LLRP.Model.Retry
 import LLRP.Proofs.Retry
+import LLRP.Proofs.SeqRetry
 /-!
 # C18 — Retry and back-off obey their limits for all inputs
 
@@ -610,5 +611,36 @@ theorem feasible_complete (base max n w : Int) (hb : 1 ≤ base) (hm : 1 ≤ max
       exact ⟨⟨by omega, by omega⟩, by rw [e1 _ (by omega)]; omega⟩
 
 example : feasible 3 100 3 21 = true ∧ feasible 3 100 3 22 = false ∧ feasible 3 20 3 20 = true := by decide
+
+/-! ## the model is the source
+
+`Gen.retry_ExpBackOff_RetryWithCtx` is the go2seq translation of `ExpBackOff.RetryWithCtx` (regenerated from
+`retry.go` on every run; the `for` loop is a recursion on a fuel argument). `SeqGlue.retryEnv` states what the calls
+mean (the scripted operation, the context script, the translated `nextWait`, `newFError`/`addErr`); the decision
+structure is the source's. Every theorem above about `Retry.run` is therefore a theorem about the translated source. -/
+
+/-- **Source = model**: for every policy, count, operation script, context script, jitter draws, every resolution of
+the race between the timer and `ctx.Done()` (`late`), with or without a deadline (`hd`; a wait can only be refused for
+the deadline when there is one) and every fuel below 2^63, the translated `RetryWithCtx` and the model `Retry.run`
+agree on the number of calls, on the `*FError` returned (or nil) and on the pauses — or both run out of fuel. -/
+theorem src_retry (c : Cfg) (retries : Int) (op : Nat → Outcome) (ctx : Ctx) (rnd : Nat → Int)
+    (late : Nat → Bool) (hd : Bool) (hhd : hd = true ∨ ∀ n, SeqGlue.isExceeds (ctx.ev n) = false)
+    (fuel : Nat) (hf : (fuel : Int) + 1 < 2 ^ 63) :
+    SeqGlue.obsT (Gen.retry_ExpBackOff_RetryWithCtx (SeqGlue.retryEnv op ctx.entry ctx.ev rnd late hd) fuel
+        ⟨0, SeqGlue.zeroFErr, []⟩ c () retries ())
+      = SeqGlue.obsM (run c retries op ctx rnd fuel) :=
+  SeqGlue.src_retry_run c retries op ctx rnd late hd hhd fuel hf
+
+/-- the translated source, run on a script: two recoverable failures then success, three runs allowed, base 5 ns:
+three calls, nil, pauses 5 and 10 -/
+example : SeqGlue.obsT (Gen.retry_ExpBackOff_RetryWithCtx
+      (SeqGlue.retryEnv (opOf [.retry, .retry, .ok]) none (evOf []) (rndOf []) (fun _ => false) false) 10
+      ⟨0, SeqGlue.zeroFErr, []⟩ ⟨5, 100, 2, false⟩ () 3 ()) = some (3, none, [5, 10]) := by decide
+
+/-- … and when the context ends during the second wait, whichever way the race goes -/
+example : ∀ late : Bool, SeqGlue.obsT (Gen.retry_ExpBackOff_RetryWithCtx
+      (SeqGlue.retryEnv (opOf [.retry, .retry, .ok]) none (evOf [.pass, .ends .canceled]) (rndOf []) (fun _ => late) false) 10
+      ⟨0, SeqGlue.zeroFErr, []⟩ ⟨5, 100, 2, false⟩ () 3 ()) =
+      some (2, some { main := .canceled, others := [.op 1, .op 2], attempts := 1, max := 2, last := 0 }, [5, 10]) := by decide
 
 end LLRP.C18
